@@ -88,6 +88,8 @@ theorem reweight_formula (w o res : Obs ℝ) (ac : Bool) (h : reweight1 w o ac =
   · cases h
   split at h
   · cases h
+  split at h
+  · cases h
   obtain ⟨u, _, h⟩ := bind_ok h
   unfold rwFinish at h
   obtain ⟨wred, hW, h⟩ := bind_ok' h
